@@ -177,6 +177,19 @@ def run(cfg):
             elif missing:
                 R.violation('R4', c_, loc, 'path accepts the value without: %s' % ', '.join(missing), detail=list(tr))
     Engine(SR()).run(sy.body)
+    # the "already holds this value => initialised" step above needs: an unset clock holds the sentinel (which syncNow()
+    # never accepts as a value), so mEpochSeconds == value can only be true after an accepting syncNow()
+    init_vals = {}
+    for n_, t_, node in lib.fields(SC):
+        if n_ in ('mEpochSeconds', 'mIsInit'):
+            inner = [x for x in node.get('inner', []) if 'Comment' not in x.get('kind', '')]
+            init_vals[n_] = lib.fold_node(inner[-1]) if inner else None
+    c_ = SC + '::mEpochSeconds:initial'
+    R.instance('R4', c_, sy.loc, 'initial values %r' % init_vals)
+    if init_vals.get('mEpochSeconds') != inv or init_vals.get('mIsInit') not in (0, False):
+        R.violation('R4', c_, sy.loc, 'a fresh clock starts with mEpochSeconds = %r, mIsInit = %r (expected the invalid sentinel %d and false): the first '
+                    'syncNow(%r) takes the "second did not change" path, which leaves mIsInit false - the clock was set but keeps reporting the sentinel'
+                    % (init_vals.get('mEpochSeconds'), init_vals.get('mIsInit'), inv, init_vals.get('mEpochSeconds')))
     sn = lib.fn(SC + '::setNow')
     calls = [e for e in all_exprs(sn.body) if e.k == 'call' and e.a[0].endswith('::syncNow')]
     ob('R3', sn.name, sn.loc, len(calls) == 1 and path_of(calls[0].a[2][0]) == sn.params[0][0] and sn.body and sn.body[0].k == 'expr'
@@ -210,6 +223,7 @@ SELFTEST = [
     dict(id='millis-not-truncated', file='src/ace_time/clock/SystemClock.h',
          find='while ((uint16_t) ((uint16_t) clockMillis() - mPrevMillis) >= 1000) {', replace='while ((uint16_t) (clockMillis() - mPrevMillis) >= 1000) {', expect='silent'),
     dict(id='step-mismatch', file='src/ace_time/clock/SystemClock.h', find='        mPrevMillis += 1000;', replace='        mPrevMillis += 1024;', rule='R2'),
+    dict(id='epoch-seconds-initial-zero', file='src/ace_time/clock/SystemClock.h', find='    mutable acetime_t mEpochSeconds = kInvalidSeconds;', replace='    mutable acetime_t mEpochSeconds = 0;', rule='R4', construct='initial'),
     dict(id='not-initialised-guard-deleted', file='src/ace_time/clock/SystemClock.h', find='      if (!mIsInit) return kInvalidSeconds;\n', replace='', rule='R3'),
     dict(id='sentinel-guard-deleted', file='src/ace_time/clock/SystemClock.h', find='      if (epochSeconds == kInvalidSeconds) return;\n      mLastSyncTime = epochSeconds;', replace='      mLastSyncTime = epochSeconds;', rule='R3'),
     dict(id='rebase-deleted', file='src/ace_time/clock/SystemClock.h', regex=True, find=r'\n      mPrevMillis = clockMillis\(\);\n      mIsInit = true;\n\n      if \(mBackupClock', replace=r'\n      mIsInit = true;\n\n      if (mBackupClock', rule='R4'),
